@@ -62,6 +62,9 @@ def run(ctx):
                 ev = json.loads(open(f).read().split("\n")[matched[0]])
             except Exception:
                 pass
+            if ev and ev.get("e") == "TryRefused":
+                ctx.violation("%s:trylock-refused" % label, "lock (%s): trylock on a free, uncontended lock kept returning FALSE (21 attempts) after a round in which trylock calls met the end of another thread's critical section" % label, [f])
+                continue
             if ev and ev.get("e") == "Overlap":
                 ctx.violation("%s:overlap" % label, "lock (%s): two threads were inside the same critical section at once (six threads taking two lock objects through lock and trylock, not logged)" % label, [f])
                 continue
